@@ -1,4 +1,5 @@
 import MosnVerif.Lemmas.DownstreamProps
+import MosnVerif.Lemmas.Downstream.Parked
 /-!
 # C03 — every request ends exactly once, with one reply, in bounded time (property theorems only)
 
@@ -142,6 +143,16 @@ theorem outcome_total (c : Cfg) (ar aq : Nat) (l : List Label)
       · exact hq
     have := blocked_facts c ar aq _ h hb
     exact ⟨hcl, hb, this.2.1, this.2.2.1⟩
+
+/-- **parked_has_live_upstream**: in every reachable state in which the worker is parked in `waitNotify` with nothing
+signalled, the request's current upstream attempt is live — its client stream is registered and counted: the request
+holds exactly what it waits for (upActive ≥ 1), so an upstream event (or, failing that, the armed global timer:
+`timeout_completes`) will wake it.  This is the Spec clause "an unfinished started exchange has upActive ≥ 1".
+It rests on a second invariant (`inv2_run`): every live client stream is still listened to by the proxy's upstream
+request, and a quiet forwarding phase has a live current attempt. -/
+theorem parked_has_live_upstream (c : Cfg) (ar aq : Nat) (l : List Label) (hb : blocked (reach c ar aq l) = true) :
+    0 < liveCount (reach c ar aq l).streams ∧ 1 ≤ (reach c ar aq l).upActive :=
+  parked_live c ar aq _ (inv_run c ar aq l) (inv2_run c ar aq l) hb
 
 /-- **timeout_completes**: from every reachable state in which the worker is parked (request sent, no event pending)
 the firing of the global timer is enabled, and it is sufficient: three worker steps later the stream is cleaned, the
